@@ -241,7 +241,14 @@ def run_simulation(k, inst, targets=None, via_solve_model=False, cut=True):
         S.vf = vf
         seed = k.int("seed", ge=0, le=5)
         S.seed = seed
-        if sym and cut:
+        if sym and cut == "observe":
+            # no havoc: only observe the keys handed to the stochastic transitions in every period
+            from pyvc.loops import CutSpec
+
+            S.keys_by_period = {}
+            k.world.loop_specs[("lcm.simulate.simulate", 0)] = CutSpec([], lambda kk, vals: None, None, lambda kk, vals: S.keys_by_period.__setitem__(kk, dict(vals["sim_keys"])), name="simulate-period-loop", observe=("sim_keys",))
+            restores.append(lambda: k.world.loop_specs.pop(("lcm.simulate.simulate", 0), None))
+        elif sym and cut:
             restores.append(install_period_cut(k, k.world, S, skel))
             S.cut = True
         feasible_choice_exists(k, S)
@@ -489,13 +496,20 @@ def decisions_contract(k, inst):
             # several continuous choices are enumerated by their flattened (row-major) position, the way the
             # library enumerates them (C18): one index for the whole continuous block
             flat_cc = len(lay.CC) >= 2
+            flat_dc = len(lay.DC) >= 2
             cc_sizes = [k.shape(S.im.grids[c])[0] for c in lay.CC]
-            csizes = [k.shape(S.im.grids[c])[0] for c in lay.RC + lay.DC] + ([k.ravel_size(cc_sizes)] if flat_cc else cc_sizes)
+            dc_sizes = [k.shape(S.im.grids[c])[0] for c in lay.DC]
+            csizes = [k.shape(S.im.grids[c])[0] for c in lay.RC] + ([k.ravel_size(dc_sizes)] if flat_dc else dc_sizes) + ([k.ravel_size(cc_sizes)] if flat_cc else cc_sizes)
 
             def alt_of(cidx):
-                cidx = tuple(cidx)
-                if flat_cc:
-                    cidx = cidx[:-1] + tuple(k.unravel(cc_sizes, cidx[-1]))
+                cidx = list(cidx)
+                rc, rest = cidx[: len(lay.RC)], cidx[len(lay.RC) :]
+                if flat_dc:
+                    dc, rest = list(k.unravel(dc_sizes, rest[0])), rest[1:]
+                else:
+                    dc, rest = rest[: len(lay.DC)], rest[len(lay.DC) :]
+                cc = list(k.unravel(cc_sizes, rest[0])) if flat_cc else rest
+                cidx = tuple(rc + dc + cc)
                 alt = {**states, **{c: k.at(S.im.grids[c], (j,)) for c, j in zip(choice_vars, cidx)}, "_period": t}
                 qa, fa = objective_of(alt)
                 return qa, L.And(bmf.filters(alt), True if fa is None else fa)
@@ -584,11 +598,25 @@ def key_discipline_contract(k, inst):
     from pyvc.values import T
     from pyvc.vc import _symbols
 
-    S = run_simulation(k, inst, cut=False)
+    S = run_simulation(k, inst, cut="observe")
     if isinstance(S, Raised):
         k.fail("simulation-runs", repr(S))
         return
     ctx = cur()
+    # which key goes to which variable is fixed by the order of the model's functions (not by any set order):
+    # in period t the j-th stochastic transition (in the order of the functions) gets child(carry_t, 1 + j),
+    # carry_0 = root(seed), carry_{t+1} = child(carry_t, 0)
+    from pyvc.stubs.prng import Key
+
+    order = ["next_" + x for x in [nm[len("next_"):] for nm, _, r in S.skel.functions if r == "stoch"]]
+    carry = Key.root(S.seed.e)
+    for t in range(S.skel.n_periods):
+        got = S.keys_by_period.get(t, {})
+        k.ensures(f"one-key-per-stochastic-transition[t={t}]", set(got) == set(order))
+        for j, nm in enumerate(order):
+            if nm in got:
+                k.ensures(f"key-of-a-transition-is-fixed-by-the-order-of-the-functions[{nm},t={t}]", T(got[nm].e == Key.child(carry, z3.IntVal(1 + j))))
+        carry = Key.child(carry, z3.IntVal(0))
     events = [e for e in ctx.events if e.get("kind") in ("split", "draw")]
     skel, n = S.skel, S.n
     n_st = len(skel.stochastic_states())
